@@ -223,3 +223,57 @@ def struct_member_write_returns_the_struct_view(ctx):
                       f'returns `{src(r.value)}` after writing the struct',
                       f'`return {src(r.value)}` hands the requested value back to the write wrapper, which caches and announces it: when the device '
                       'clamps or rounds, the member parameter disagrees with the struct parameter', wf)
+
+
+@rule('C18.R6', min_instances=2)
+def member_update_suppression_is_always_lifted(ctx):
+    """StructParam (separate member read/write layout): the counter that suppresses the member -> struct callbacks while the
+    struct is read / written as a whole (insideRW) is decremented on EVERY exit that follows an increment, exceptional ones
+    included (try/finally, also around the yield of a context manager) - a counter left above zero disables the callbacks
+    for the life of the module, struct and members then drift apart"""
+    m = ctx.m
+    n = 0
+    for q, fi in sorted(m.functions.items()):
+        if fi.module.name != 'frappy.extparams':
+            continue
+        incs = [x for x in body_walk(fi.node) if isinstance(x, ast.AugAssign) and isinstance(x.op, ast.Add) and isinstance(x.target, ast.Attribute)
+                and x.target.attr == 'insideRW']
+        if not incs:
+            continue
+        ctx.analysed(fi)
+        cfg = CFG(fi.node, m, fi.module)
+        decs = [i for x in body_walk(fi.node) if isinstance(x, ast.AugAssign) and isinstance(x.op, ast.Sub) and isinstance(x.target, ast.Attribute)
+                and x.target.attr == 'insideRW' for i in cfg.ids(x)]
+        for inc in incs:
+            n += 1
+            ok = bool(decs) and cfg.all_paths_pass(cfg.ids(inc), [cfg.exit, cfg.exit_exc], decs)
+            ctx.check(ok, f'{fi.qualname}:insideRW decremented on every exit', inc, 'every path from the increment to an exit (normal or exceptional) decrements',
+                      f'after `{src(inc)}` there is an exit without the decrement (an exception in a member read / write, or thrown in at the yield '
+                      'of the context manager): insideRW stays above zero, the member callbacks are disabled for good and the struct parameter '
+                      'no longer follows its members', fi)
+    if n < 1:
+        raise AnchorMissing('increments of insideRW not found in frappy/extparams.py')
+
+
+@rule('C18.R4b', min_instances=1)
+def controller_callbacks_are_per_output(ctx):
+    """the table of deactivate callbacks of an output (inputCallbacks) belongs to that output alone: the class-level default is
+    immutable and the first registration creates a per-instance dict (a class-level dict would make taking over one output
+    switch off the controllers of every other output)"""
+    m = ctx.m
+    ci = m.cls('frappy.mixins.HasControlledBy')
+    decl = ci.assigns.get('inputCallbacks')
+    f = m.method('frappy.mixins.HasControlledBy', 'register_input', inherited=False)
+    ctx.analysed(f)
+    mutable_default = isinstance(decl, (ast.Dict, ast.List, ast.Set)) or (isinstance(decl, ast.Call) and dotted(decl.func) in ('dict', 'list', 'set', 'OrderedDict'))
+    fresh = [s for t, v, s in attr_stores(f.node) if t.attr == 'inputCallbacks' and dotted(t.value) == 'self'
+             and (isinstance(v, ast.Dict) or (isinstance(v, ast.Call) and dotted(v.func) in ('dict', 'OrderedDict')))]
+    cfg = CFG(f.node, m, f.module)
+    writes = [n for n in body_walk(f.node) if isinstance(n, ast.Assign) and any(isinstance(t, ast.Subscript) and src(t.value) == 'self.inputCallbacks' for t in n.targets)]
+    ok = not mutable_default and bool(writes)
+    ctx.check(ok and (decl is None or bool(fresh)), f'{ci.qualname}:inputCallbacks is per instance', decl if decl is not None else f.node,
+              'immutable class default, a fresh dict is stored on the instance before the first registration',
+              f'inputCallbacks is declared as `{src(decl) if decl is not None else "?"}` at class level'
+              + ('' if fresh else ' and register_input never stores a fresh dict on the instance')
+              + ': all outputs share one table, so activate_control / self_controlled of one output deactivate the controllers of the '
+              'others while their controlled_by still names them', f)
